@@ -1,7 +1,10 @@
 /* read/write/lseek wrappers (link with -Wl,--wrap=read,--wrap=write,--wrap=lseek):
    the k-th armed call of one operation fails with an errno or transfers a short count.
    Configured through zh_fault_* or the environment ZH_FAULT=<op>:<k>:<kind>[:<short>]
-   op = read|write|lseek, kind = eio|enospc|eintr|short.  Calls on fds 0-2 are never counted. */
+   op = read|write|lseek, kind = eio|enospc|eintr|short.  Calls on fds 0-2 are never counted.
+   kind = kill (write only): the k-th armed write transfers <short> bytes (all of them when <short>
+   is not smaller than the request, half of them when <short> is -1) and the process then dies
+   with _exit(137) - an interruption of the program after that many bytes reached the file. */
 #ifndef IOWRAP_H
 #define IOWRAP_H
 #include <unistd.h>
@@ -33,7 +36,7 @@ static void zh_fault_env(void) {
     if(n < 3) return;
     zh_fault_op = !strcmp(op, "read") ? 0 : !strcmp(op, "write") ? 1 : 2;
     zh_fault_k = k;
-    zh_fault_kind = !strcmp(kind, "eio") ? 1 : !strcmp(kind, "enospc") ? 2 : !strcmp(kind, "eintr") ? 3 : 4;
+    zh_fault_kind = !strcmp(kind, "eio") ? 1 : !strcmp(kind, "enospc") ? 2 : !strcmp(kind, "eintr") ? 3 : !strcmp(kind, "kill") ? 5 : 4;
     zh_fault_short = sh;
     zh_armed = 1;
 }
@@ -59,6 +62,11 @@ ssize_t __wrap_read(int fd, void *buf, size_t n) {
 ssize_t __wrap_write(int fd, const void *buf, size_t n) {
     ssize_t r;
     if(zh_hit(1, fd)) {
+        if(zh_fault_kind == 5) {
+            size_t m = zh_fault_short < 0 ? n / 2 : ((size_t)zh_fault_short < n ? (size_t)zh_fault_short : n);
+            if(m > 0) __real_write(fd, buf, m);
+            _exit(137);
+        }
         if(zh_fault_kind != 4) { errno = zh_errno_of(); r = -1; }
         else { size_t m = (size_t)zh_fault_short < n ? (size_t)zh_fault_short : n; r = __real_write(fd, buf, m); }
     } else r = __real_write(fd, buf, n);
